@@ -83,7 +83,9 @@ LEVEL_NOTE = ('Spacings come from three patterns and their single-direction devi
               'propagated rounding of 4-digit block centres.')
 
 BASE_DX, BASE_DY, BASE_DZ = 10.0, 7.0, 2.0
-SHIFTS = [(0.0, 0.0, 0.0), (100.0, 200.0, -50.0), (100.0, 200.0, 500.0)]     # the last: a grid wholly above z = 0
+SHIFTS = [(0.0, 0.0, 0.0), (100.0, 200.0, -50.0), (100.0, 200.0, 500.0),     # a grid wholly above z = 0
+          (10000.37, 20000.11, -50.0), (1800000.37, 5700000.11, 100.0)]   # far from the origin: map-grid coordinates
+FAR = (3, 4)
 ANGLES = {'quick': [0, 30, 135, -45], 'thorough': [0, 30, 45, 90, 135, 180, -45, 200, 1e-06, 180.000001]}
 DEV_ANGLES = {'quick': [0, 30], 'thorough': [0, 30]}
 SP_DEVS = [['i', 'i', 'i'], ['t', 't', 't'], ['i', 'u', 'u'], ['u', 'i', 'u'], ['u', 'u', 'i'],
@@ -254,6 +256,31 @@ def unit_cases(unit, tier):
             c = emit(with_(base, shift=1, file=True, cs=a, cr=b))
             if c:
                 yield c
+    # F: far from the origin (non-round map-grid coordinates, non-round spacings), every surface, in memory
+    for sh in FAR:
+        for s in surface_family(nx, ny, nz):
+            for ang in (0, 30):
+                for sp in (['u', 'u', 'u'], ['i', 'i', 'i']):
+                    for route in ('translate', 'origin'):
+                        c = emit(with_(base, shift=sh, surf=s, angle=ang, sp=sp, route=route))
+                        if c:
+                            yield c
+    for sh in (1, 2):
+        for ang in (0, 30):
+            for s in ([TOP] * (nx * ny), stair(nx, ny, nz)):
+                c = emit(with_(base, shift=sh, surf=s, angle=ang, route='origin'))
+                if c:
+                    yield c
+    # G: snapping switched off (layer_snap = 0 or negative).  Only where every number of the grid is exactly
+    # representable (no rotation, spacings 10 / 7 / 2 and their quarters, round shifts): elsewhere rounding can
+    # leave the sliver blocks that the documentation of layer_snap warns about
+    for snap in ('zero', 'negative'):
+        for s in surface_family(nx, ny, nz):
+            for sh in (0, 1):
+                for sp in (['u', 'u', 'u'], ['t', 't', 't']):
+                    c = emit(with_(base, shift=sh, surf=s, sp=sp, snap=snap))
+                    if c:
+                        yield c
     # E: mesh routes x vertical position x basal boundary blocks with centres, crossed (what a route does to an absent
     # centre, and which block is lowest, only interact)
     for sh in (0, 1, 2):
@@ -287,7 +314,8 @@ def units(tier):
 
 def case_key(c):
     return repr((c['nx'], c['ny'], c['nz'], c['sp'], c['shift'], c['angle'], c['atm'], c['surf'], c['cs'], c['cr'],
-                 c['bnd'], c['ob'], c['rmi'], c['file'], c.get('avol', 'd'), c.get('bname', 'bdy 1')))
+                 c['bnd'], c['ob'], c['rmi'], c['file'], c.get('avol', 'd'), c.get('bname', 'bdy 1'),
+                 c.get('snap', 'default'), c.get('route', 'translate')))
 
 
 # ---------------------------------------------------------------------------------------------- one case
@@ -314,7 +342,12 @@ def quiet():
 def build_geometry(case, m):
     import numpy as np
     from mulgrids import mulgrid
-    geo = mulgrid().rectangular(m.dx, m.dy, m.dz, convention=case['cs'], atmos_type=case['atm'])
+    by_origin = case.get('route', 'translate') == 'origin'
+    shift = SHIFTS[case['shift']]
+    if by_origin:      # the position given to rectangular() itself, rotation about that corner
+        geo = mulgrid().rectangular(m.dx, m.dy, m.dz, convention=case['cs'], atmos_type=case['atm'], origin=list(shift))
+    else:
+        geo = mulgrid().rectangular(m.dx, m.dy, m.dz, convention=case['cs'], atmos_type=case['atm'])
     if case.get('avol', 'd') != 'd':
         geo.atmosphere_volume = AVOL[case['avol']]
     for k, col in enumerate(geo.columnlist):
@@ -324,9 +357,13 @@ def build_geometry(case, m):
         geo.set_column_num_layers(col)
     geo.setup_block_name_index()
     geo.setup_block_connection_name_index()
-    geo.rotate(case['angle'], np.zeros(2))
-    geo.permeability_angle = -case['angle']
-    geo.translate(np.array(SHIFTS[case['shift']]))
+    if by_origin:
+        geo.rotate(case['angle'], np.array(shift[:2]))
+        geo.permeability_angle = -case['angle']
+    else:
+        geo.rotate(case['angle'], np.zeros(2))
+        geo.permeability_angle = -case['angle']
+        geo.translate(np.array(shift))
     return geo
 
 
@@ -373,7 +410,7 @@ def grid_summary(grid, skip=()):
     blocks = {}
     for b in grid.blocklist:
         if b.name not in skip:
-            blocks[b.name] = float(b.volume)
+            blocks[b.name] = float('nan') if b.volume is None else float(b.volume)
     cons = {}
     for c in grid.connectionlist:
         n0, n1 = c.block[0].name, c.block[1].name
@@ -493,7 +530,7 @@ def evaluate(case):
                 geo = build_geometry(case, m)
             except Exception as e:
                 raise Fail('forward', 'exception:' + type(e).__name__, 'building the geometry raised %r' % e)
-            check_forward(geo, m, 1e-9 * scale)
+            check_forward(geo, m, (1e-12 if case['shift'] in FAR else 1e-9) * scale)
             try:
                 grid = t2grid().fromgeo(geo)
             except Exception as e:
@@ -518,6 +555,10 @@ def evaluate(case):
                     raise Fail('reorder', 'exception:' + type(e).__name__, 'moving the atmosphere blocks to the end raised %r' % e)
             # rounding the grid suffers before rectgeo sees it
             dxy, dz, rel = 1e-7 * scale, 1e-7 * scale, 1e-7
+            if case['shift'] in FAR:
+                # far from the origin the comparison must not scale with the coordinates: doubles resolve 1e-9 m
+                # at 5.7e6 m, and a block is where it is to 1e-12 of its coordinates whatever they are
+                dxy, dz = 1e-12 * scale, 1e-12 * scale
             if case['file']:
                 try:
                     grid_f = through_file(grid, case['file'])
@@ -533,6 +574,8 @@ def evaluate(case):
                 kw['origin_block'] = origin_name
             if case['rmi']:
                 kw['remove_inactive'] = True
+            if case.get('snap', 'default') != 'default':
+                kw['layer_snap'] = {'zero': 0.0, 'negative': -1.0}[case['snap']]
             limit = 120 if (case['nx'], case['ny'], case['nz']) == BIG else 20
             try:
                 with core.timelimit(limit):
@@ -686,6 +729,10 @@ REVERT = [('file', lambda c, b: with_(c, file=False),
            lambda c: 'boundary-name-order' if c['bnd'] and c.get('bname', 'bdy 1') != 'bdy 1' else None),
           ('bnd', lambda c, b: with_(c, bnd=None), lambda c: ('bnd=' + '/'.join(c['bnd'])) if c['bnd'] else None),
 
+          ('route', lambda c, b: with_(c, route='translate'),
+           lambda c: 'position-by-origin-argument' if c.get('route', 'translate') == 'origin' else None),
+          ('snap', lambda c, b: with_(c, snap='default'),
+           lambda c: 'layer_snap=' + c['snap'] if c.get('snap', 'default') != 'default' else None),
           ('rmi', lambda c, b: with_(c, rmi=False), lambda c: 'remove_inactive' if c['rmi'] else None),
           ('avol', lambda c, b: with_(c, avol='d'),
            lambda c: 'atmosphere-volume=' + {'z': '0', 'h': '1e50'}[c['avol']] if c.get('avol', 'd') != 'd' else None),
@@ -694,7 +741,7 @@ REVERT = [('file', lambda c, b: with_(c, file=False),
            lambda c: ('conv-differs' if c['cs'] != c['cr'] else 'conv=%d' % c['cs']) if (c['cs'], c['cr']) != (0, 0) else None),
           ('surf', lambda c, b: with_(c, surf=b['surf']), lambda c: 'surface' if any(s != TOP for s in c['surf']) else None),
           ('angle', lambda c, b: with_(c, angle=0), lambda c: 'angle=%r' % c['angle'] if c['angle'] != 0 else None),
-          ('shift', lambda c, b: with_(c, shift=0), lambda c: ('shifted' if c['shift'] == 1 else 'above-z0') if c['shift'] else None),
+          ('shift', lambda c, b: with_(c, shift=0), lambda c: {1: 'shifted', 2: 'above-z0', 3: 'origin~1e4', 4: 'origin~1e6'}[c['shift']] if c['shift'] else None),
           ('sp', lambda c, b: with_(c, sp=['u', 'u', 'u']),
            lambda c: 'spacing=' + ''.join(c['sp']) if c['sp'] != ['u', 'u', 'u'] else None)]
 
